@@ -183,10 +183,9 @@ def mergedMeta (m : Mem) (b : Bytes) (k : Key) (md : Meta) : Meta :=
   | .ok old => mergeMeta md old.md
   | _ => md
 
-/-- `PutObject` once the body has been read: merge metadata, commit -/
-def put (md5 : Bytes → Bytes) (m : Mem) (b : Bytes) (k : Key) (md : Meta) (body : Bytes) :
+/-- the part of `PutObject` that runs under the write lock: draw the id, store the item -/
+def putCommit (md5 : Bytes → Bytes) (m : Mem) (b : Bytes) (k : Key) (md' : Meta) (body : Bytes) :
     Mem × Res (Option Nat) :=
-  let md' := mergedMeta m b k md
   match SMap.find m.buckets b with
   | none => (m, .err .NoSuchBucket)
   | some bk =>
@@ -194,6 +193,11 @@ def put (md5 : Bytes → Bytes) (m : Mem) (b : Bytes) (k : Key) (md : Meta) (bod
     let bk' := bk.put k ⟨id, false, body, md5 body, md'⟩
     ({ buckets := SMap.insert m.buckets b bk', nextVer := id },
       .ok (if bk.versioning == .enabled then some id else none))
+
+/-- `PutObject` once the body has been read: merge metadata (before the lock), commit -/
+def put (md5 : Bytes → Bytes) (m : Mem) (b : Bytes) (k : Key) (md : Meta) (body : Bytes) :
+    Mem × Res (Option Nat) :=
+  putCommit md5 m b k (mergedMeta m b k md) body
 
 /-- `DeleteObject`: (isDeleteMarker, versionId) -/
 def delete (m : Mem) (b : Bytes) (k : Key) : Mem × Res (Bool × Option Nat) :=
